@@ -78,7 +78,8 @@ Qed.
 Print Assumptions c04_only_this_conn.
 
 (* (2): handleTcpConnect always returns, and the observer calls it made form a
-   run of the specification automaton [shell_ok]: connect notifications, at most
+   run of the specification automaton [shell_ok]: connect notifications only
+   before the session has a role, at most
    one OnNewRtmpPubSession / OnNewRtmpSubSession, media only after an accepted
    publish, OnDelRtmp*Session exactly once and exactly when the matching
    OnNew was accepted, nothing afterwards *)
@@ -87,6 +88,15 @@ Theorem c04_shell_callbacks : forall hmac env input,
   exists evs, handle_tcp_connect hmac sv_fixed env input = Some evs /\ shell_ok evs = true.
 Proof. intros hmac env input H1 H2. exact (shell_good hmac env H1 H2 input). Qed.
 Print Assumptions c04_shell_callbacks.
+
+(* a connect after publish (the F-C04-4 scenario): the pinned tree accepts it and
+   notifies the upper layer about a connect on a session that already is a
+   publisher; since C20's repair of doConnect the connection is closed *)
+Theorem c04_shell_callbacks_pinned_refuted : forall hmac,
+  (exists evs, handle_tcp_connect hmac sv_pinned w_env (w_handshake ++ w_pub ++ w_conn) = Some evs /\ shell_ok evs = false) /\
+  r_out (run_session hmac sv_fixed w_env (w_handshake ++ w_pub ++ w_conn)) = OClose e_unexpected_msg.
+Proof. intro hmac. exact (pinned_connect_after_publish hmac). Qed.
+Print Assumptions c04_shell_callbacks_pinned_refuted.
 
 (* --- the pinned tree ---------------------------------------------------------------- *)
 
